@@ -18,6 +18,7 @@ tvars == <<alg, n, arr, l>>
 
 AlgOf(name) ==
     CASE name = "hashaff" -> A("hashaff")
+      [] name = "hashflip" -> A("hashaff")
       [] name = "min" -> A("min")
       [] name = "max" -> A("max")
       [] name = "sum" -> A("sum")
